@@ -56,6 +56,7 @@ int disasm_powerpc(
       const uint32_t ra = (opcode >> 16) & 0x1f;
       const uint32_t rb = (opcode >> 11) & 0x1f;
       const uint32_t rc = opcode & 0x1;
+      const uint32_t frc = (opcode >> 6) & 0x1f;
       const uint32_t bo = rd;
       const uint32_t rs = rd;
       const uint32_t bi = ra;
@@ -264,7 +265,7 @@ int disasm_powerpc(
           snprintf(instruction, length, "%s v%d, %d", instr, rd, vsimm);
           break;
         case OP_VD_VB:
-          snprintf(instruction, length, "%s v%d, v%d", instr, rd, ra);
+          snprintf(instruction, length, "%s v%d, v%d", instr, rd, rb);
           break;
         case OP_VD_VA_VB_SH:
           vc = (opcode >> 6) & 0xf;
@@ -290,7 +291,7 @@ int disasm_powerpc(
           {
             dot = ".";
           }
-          snprintf(instruction, length, "%s%s fp%d, fp%d, fp%d", dot, instr, rd, ra, rb);
+          snprintf(instruction, length, "%s%s fp%d, fp%d, fp%d", instr, dot, rd, ra, rb);
           break;
         case OP_FRT_FRA_FRC:
           if ((table_powerpc[n].flags & FLAG_DOT) &&
@@ -298,7 +299,7 @@ int disasm_powerpc(
           {
             dot = ".";
           }
-          snprintf(instruction, length, "%s%s fp%d, fp%d, fp%d", dot, instr, rd, ra, rc);
+          snprintf(instruction, length, "%s%s fp%d, fp%d, fp%d", instr, dot, rd, ra, frc);
           break;
         case OP_FRT_FRA_FRC_FRB:
           if ((table_powerpc[n].flags & FLAG_DOT) &&
@@ -306,7 +307,7 @@ int disasm_powerpc(
           {
             dot = ".";
           }
-          snprintf(instruction, length, "%s%s fp%d, fp%d, fp%d, fp%d", instr, dot, rd, ra, rc, rb);
+          snprintf(instruction, length, "%s%s fp%d, fp%d, fp%d, fp%d", instr, dot, rd, ra, frc, rb);
           break;
         case OP_BF_FRA_FRB:
           bf = (opcode >> 23) & 0x7;
